@@ -1,14 +1,14 @@
 #!/bin/bash
-# seedverify.sh <ID> [outdir]: independently confirm a seeded change: applies to the pinned tree (+fix commits),
+# seedverify.sh <ID> [outdir] [base-branch] [tag]: independently confirm a seeded change: applies to the pinned tree (+fix commits),
 # suite passes with it, demonstration fails with it and passes without it. Result: /tmp/seedverify_<ID>.log
-id=$1; out=${2:-/tmp/seed_${id}_out}; log=/tmp/seedverify_$id.log; wt=/tmp/sv_$id
+id=$1; out=${2:-/tmp/seed_${id}_out}; base=${3:-seedbase}; tag=${4:-$id}; log=/tmp/seedverify_$tag.log; wt=/tmp/sv_$tag
 exec > "$log" 2>&1
 git -C /repo worktree remove --force $wt 2>/dev/null; rm -rf $wt
-git -C /repo worktree add -q --detach $wt seedbase || exit 2
+git -C /repo worktree add -q --detach $wt $base || exit 2
 cd $wt
 git apply "$out/patch.diff" || { echo "RESULT: patch does not apply"; exit 2; }
-echo "--- suite with change"; GOPROXY=off go test -vet=off -count=1 ./... > /tmp/sv_suite_$id.txt 2>&1; suite=$?
-grep -v "no test files" /tmp/sv_suite_$id.txt | tail -15
+echo "--- suite with change"; GOPROXY=off go test -vet=off -count=1 ./... > /tmp/sv_suite_$tag.txt 2>&1; suite=$?
+grep -v "no test files" /tmp/sv_suite_$tag.txt | tail -15
 git checkout -q go.work.sum 2>/dev/null
 # demo: copy test files next to the package named in run.sh, or run run.sh
 cat "$out/demo/run.sh"
